@@ -437,6 +437,24 @@ partial def drain (n : Net) : Net :=
   | [] => n
   | _ => drain (step n (.run 0))
 
+/-- nested futures of futures (work package HOF): `Flatten(Successful(D))`, `Flatten(Flatten(Successful(Successful(D))))`,
+    `LiftM(kf)(D)`, `LiftM(v => LiftM(kf2)(kf1 v))(h)` — the inner definition `D` is built in place -/
+def defHO (w : World) : Sexp → Option FExpr
+  | .list [.atom "flattenS", .list [.atom "flattenS", d]] => do
+      let e ← defOf w d
+      pure (Fut.flatten (.successfulOf (Fut.flatten (.successfulOf e))))
+  | .list [.atom "flattenS", d] => do pure (Fut.flatten (.successfulOf (← defOf w d)))
+  | .list [.atom "flattenSS", d] => do
+      pure (Fut.flatten (Fut.flatten (.successfulOf (.successfulOf (← defOf w d)))))
+  | .list [.atom "liftMF", d, k] => do
+      let e ← defOf w d; let k ← kfOf w k
+      pure (Fut.flatten (.flatMap e (fun v => .successfulOf (k v))))
+  | .list [.atom "liftMM", h, k1, k2] => do
+      let body1 ← kfBody w k1; let id1 ← kfId k1; let k2 ← kfOf w k2
+      pure (Fut.liftM (fun v => .logged [s!"kf{id1}:{v}"]
+        (Fut.flatten (.flatMap (body1 v) (fun x => .successfulOf (k2 x))))) (← hOf w h))
+  | _ => none
+
 def runStmt (w : World) (out : List String) : Sexp → Option (World × List String)
   | .list [.atom "def", d] => do
       match defProg w d with
@@ -446,7 +464,7 @@ def runStmt (w : World) (out : List String) : Sexp → Option (World × List Str
         let isB := match d with | .list (.atom "chain" :: _) => true | .list (.atom "applicative" :: _) => true | _ => false
         pure ({ w with net := n, defs := w.defs ++ [p], blds := if isB then w.blds ++ [.done] else w.blds }, out)
       | none =>
-        let e ← (defFam w d).orElse (fun _ => defOf w d)
+        let e ← ((defHO w d).orElse (fun _ => defFam w d)).orElse (fun _ => defOf w d)
         let (p, n) := build e w.net
         pure ({ w with net := n, defs := w.defs ++ [p] }, out)
   | .list [.atom "cnew", .atom "chain", n, f] => do
